@@ -333,6 +333,12 @@ func (f *Func) reachTarget(
 ) (map[interface{}]reflect.Value, error) {
 	log.Trace("reachTarget", "target", target)
 
+	// Track the functions whose arguments are being resolved so that a path
+	// leading back into one of them is detected as a dependency cycle.
+	targetID := graph.VertexID(target)
+	state.Reaching[targetID] = struct{}{}
+	defer delete(state.Reaching, targetID)
+
 	// argMap will store all the values that this target depends on.
 	argMap := map[interface{}]reflect.Value{}
 
@@ -409,9 +415,11 @@ func (f *Func) reachTarget(
 			input = paths[i][1]
 		}
 
-		// If the path contains ourself, then this target is unsatisfied.
+		// If the path contains ourself, or any function that is waiting for
+		// this target's result, then this target is unsatisfied: following
+		// the path would recurse forever.
 		for _, v := range paths[i] {
-			if v == target {
+			if _, busy := state.Reaching[graph.VertexID(v)]; busy {
 				valueable, ok := current.(valueConverter)
 				if !ok {
 					// This shouldn't be possible
@@ -419,6 +427,7 @@ func (f *Func) reachTarget(
 				}
 
 				unsatisfied = append(unsatisfied, valueable.value())
+				break
 			}
 		}
 
@@ -626,6 +635,10 @@ type callState struct {
 
 	// TODO
 	InputSet map[interface{}]graph.Vertex
+
+	// Reaching is the set of function vertices (by vertex ID) whose
+	// arguments are currently being resolved by reachTarget.
+	Reaching map[interface{}]struct{}
 }
 
 func newCallState() *callState {
@@ -633,5 +646,6 @@ func newCallState() *callState {
 		NamedValue: map[string]reflect.Value{},
 		TypedValue: map[reflect.Type]reflect.Value{},
 		InputSet:   map[interface{}]graph.Vertex{},
+		Reaching:   map[interface{}]struct{}{},
 	}
 }
